@@ -328,6 +328,73 @@ def streams(rng: random.Random, names, n_max=4):
     return out
 
 
+def drive_history(ctx: Ctx, rng: random.Random, k_warm: int, n_probe: int, n_pairs: int) -> None:
+    """A long-running process: hundreds of one-off CRSs (per-tile local projections) are used in two spellings each and dropped; later, thousands of *different*
+    one-off CRSs are combined pairwise.  Whatever the library remembers about earlier objects (parse caches, verdicts keyed by object identity, ...) must not leak into
+    the later verdicts.  Object addresses of the public `crs.proj` / the CRS wrapper are used only as a *search heuristic* (pairs that now live where an earlier equal
+    pair lived are tried first); the verdict comes from the generator's labels, as everywhere in this check."""
+    import gc
+
+    import pyproj
+    from odc.geo.crs import CRS
+
+    mon = ctx.mon
+    shp = shapes(rng)
+    base = rng.randrange(10**6)
+
+    def spec(i: int, fam: str) -> str:
+        return f"+proj={fam} +lat_0={(i % 120) - 60} +lon_0={(i * 7) % 360 - 180} +x_0={base + i} +datum=WGS84 +units=m +no_defs"
+
+    seen = {}
+    warm = []
+    for i in range(k_warm):
+        s = spec(i, "laea")
+        a, b = CRS(s), CRS(pyproj.CRS(s).to_wkt())
+        ta, tb = f"warm{i}-proj", f"warm{i}-wkt"
+        ctx.byname[ta], ctx.byname[tb] = (ta, f"warm{i}", a), (tb, f"warm{i}", b)
+        mon.case = {"kind": "history", "phase": "warm", "spec": s}
+        do_binary(ctx, rng.choice(["intersection", "intersects", "union", "__and__"]), ta, tb, "polygon", "polygon-hole", shp)
+        for x, y in ((a, b), (b, a)):
+            seen[id(x.proj)] = id(y.proj)
+            seen[("w", id(x))] = id(y)
+        warm.append((ta, tb))
+    for ta, tb in warm:
+        del ctx.byname[ta], ctx.byname[tb]
+    del a, b, x, y
+    gc.collect()
+    live, cands = {}, []
+    for j in range(n_probe):
+        s = spec(j, "aeqd" if j % 2 else "ortho")
+        x = CRS(s)
+        t = f"probe{j}"
+        ctx.byname[t] = (t, t, x)
+        live[id(x.proj)] = t
+        live[("w", id(x))] = t
+        for k in (id(x.proj), ("w", id(x))):
+            o = live.get(seen.get(k))
+            if o is not None and o != t:
+                cands.append((t, o))
+    mon.obs["history_pairs_at_recycled_addresses"] += len(cands)
+    names = [f"probe{j}" for j in range(n_probe)]
+    pairs = cands[: n_pairs // 2]
+    pairs += [tuple(rng.sample(names, 2)) for _ in range(n_pairs - len(pairs))]
+    for t1, t2 in pairs:
+        for (u, v) in ((t1, t2), (t2, t1)):
+            mon.case = {"kind": "history", "phase": "probe", "specs": [str(ctx.byname[u][2])[:80], str(ctx.byname[v][2])[:80]]}
+            for op in ("intersects", "intersection", "__or__", "difference"):
+                do_binary(ctx, op, u, v, "polygon", rng.choice(KINDS[:9]), shp)
+            do_split(ctx, u, v, "polygon", "line", shp)
+            do_intersects_fn(ctx, u, v, "polygon", "polygon", shp)
+            for op in NARY:
+                do_nary(ctx, op, (u, v), ["polygon", "polygon"], shp)
+            do_bbox(ctx, rng, (u, v))
+            do_geobox(ctx, rng, (u, v))
+            mon.ok("history.pair", cls="recycled-address" if (t1, t2) in cands else "random")
+    for t in names:
+        del ctx.byname[t]
+    mon.case = None
+
+
 def run(mon: Monitor, tier: str, seed: int, shard: int, nshards: int) -> None:
     rng = random.Random(seed * 1000 + shard + 1)
     ctx = Ctx(mon)
@@ -378,6 +445,11 @@ def run(mon: Monitor, tier: str, seed: int, shard: int, nshards: int) -> None:
             except Exception as e:
                 mon.error("bbox/geobox", e)
     mon.case = None
+    try:
+        drive_history(ctx, random.Random(seed * 1000 + shard + 101), 500, 4000 if not full else 8000, 12 if not full else 60)
+    except Exception as e:
+        mon.error("history", e)
+    mon.floor("history.pair", 20)
     if full:
         mon.exhaustive = True
         mon.notes["exhaustive_domain"] = "binary ops x 13^2 CRS tag pairs x 11^2 kind pairs"
@@ -403,6 +475,9 @@ def replay(mon: Monitor, case) -> None:
     ctx = Ctx(mon)
     mon.case = case
     k = case.get("kind")
+    if k == "history":
+        # a verdict that depends on what the process did before: the whole history is replayed
+        return drive_history(ctx, random.Random(mon.seed * 1000 + 101), 500, 4000, 12)
     # shapes are seeded-random; a CRS verdict does not depend on the coordinates, so several draws are replayed
     for _ in range(5):
         shp = shapes(rng)
